@@ -182,8 +182,8 @@ def run(ctx):
                         % (sf.SFTPFile.MAX_REQUEST_SIZE, sf.SFTPFile._DEFAULT_BUFSIZE))
     ctx.build()
     rng = ctx.rng
-    n_lock = 6000 if ctx.thorough else 1000
-    n_thr = 1500 if ctx.thorough else 250
+    n_lock = 10000 if ctx.thorough else 2200
+    n_thr = 2500 if ctx.thorough else 450
 
     # ---------------- lockstep correspondence + oracle
     reqs, checks = [], []  # checks: (line index, kind, expected, case id)
@@ -212,6 +212,8 @@ def run(ctx):
         ctx.dist("lockstep:bias:" + bias)
         ctx.dist("lockstep:maxreq:%d" % maxreq)
         ctx.dist("lockstep:actions", nacts)
+        for k, v in res.get("stats", {}).items():
+            ctx.dist("sched:" + k, v)
         for o in ops:
             ctx.dist("op:" + o[0] + (":capped" if o[0] in ("readv", "prefetch") and o[2] is not None else ""))
         if ci % 60 == 0:
